@@ -39,11 +39,18 @@ ITEM_ROWS = [
     {"id": 1, "n": 3, "m": 2, "name": "aA", "title": "a", "flag": True},
 ]
 IDENTS = {"vt_item", "vt_parent", "vt_child", "vt_tag", "vt_parent_tags", "id", "n", "m", "name", "title", "flag", "k",
-          "label", "t", "boss_id", "parent_id", "owner_id", "tag_id"}
+          "label", "t", "boss_id", "parent_id", "owner_id", "tag_id", "vt2_user", "vt2_team", "vt2_project", "vt2_ticket",
+          "project_id"}
 
 
 # ====================================================================== program extraction (the live code)
-def _models(backend: str):
+def _models(backend: str, model: str = "Item"):
+    from ..models.schema import SCHEMA2_MODELS
+    if model in SCHEMA2_MODELS:
+        if backend == "django":
+            raise KeyError(f"{model} exists in the SQLAlchemy schema only")
+        from ..models import sa2
+        return sa2
     if backend == "django":
         from ..models import setup
         return setup.django_setup()
@@ -87,7 +94,7 @@ def build(backend: str, text: str, model: str = "Item", base: Optional[str] = No
 
 def base_query(backend: str, model: str, base: Optional[str], session=None):
     """The host query the shorthand is applied to.  `base` (C15) selects a pre-built variant."""
-    M = _models(backend)
+    M = _models(backend, model)
     cls = getattr(M, model)
     if backend == "django":
         from .ormbases import django_base
@@ -157,6 +164,7 @@ def replay(backend: str, text: str, content: Dict[str, List[dict]], model: str =
 
 
 _DJ_ORDER = ("vt_item", "vt_tag", "vt_parent", "vt_child", "vt_parent_tags")
+_SA_ORDER = _DJ_ORDER + ("vt2_user", "vt2_team", "vt2_project", "vt2_ticket")
 _NOFILTER = object()
 
 
@@ -186,14 +194,16 @@ def _replay_django(text, content, model, base):
 def _replay_sa(backend, text, content, model, base, assumed=False):
     import sqlalchemy as sa
     from sqlalchemy.orm import Session
-    from ..models import sa as S, setup
+    from ..models import sa as S, sa2 as S2, setup
     eng = setup.sa_engine(register_assumed=assumed)
+    tables = dict(S.Base.metadata.tables)
+    tables.update(S2.Base.metadata.tables)
     try:
         with eng.begin() as conn:
             conn.exec_driver_sql("PRAGMA foreign_keys=OFF")
-            for t in _DJ_ORDER:
+            for t in _SA_ORDER:
                 for r in content.get(t, []):
-                    conn.execute(S.Base.metadata.tables[t].insert().values(**r))
+                    conn.execute(tables[t].insert().values(**r))
         with Session(eng) as s:
             if text is None:
                 stmt = base_query(backend, model, base, s)
@@ -383,6 +393,21 @@ class ScalarCheck:
         ob = "ref"
         if st in ("refused", "crash", "parser_rejected"):
             self.emit("accept", backend, st, why=p["why"])
+            if st != "parser_rejected" and not self.sent and any(x[0] == "int" for x in G.subterms(self.term)):
+                # concrete literals: is the same filter accepted once no two literals have equal values?
+                dterm = G.decouple_ints(self.term)
+                dtext = G.to_text(dterm, self.full)
+                st2, payload2 = build(backend, dtext)
+                if st2 == "ok":
+                    kind, got = replay(backend, self.text, {"vt_item": [dict(ITEM_ROWS[0])]})
+                    w = {"filter": self.text, "term": self.term, "backend": backend, "rows": {"vt_item": [dict(ITEM_ROWS[0])]},
+                         "other_filter": dtext, "outcome": p["why"], "orm_result": got, "expect_crash": p["why"].split(":")[0]}
+                    if kind == "error":
+                        self.emit(ob, backend, "violation", witness=w,
+                                  what=f"the filter is {st} ({p['why'][:150]}) although the same filter with other literal "
+                                       f"values ({dtext!r}) is translated: literal values that compare equal are confused")
+                    else:
+                        self.emit(ob, backend, "harness_error", witness=w, why="building the statement fails but executing it does not")
             return
         ctx = {"term": self.term, "features": self.feats, "backend": backend, "sql": p.get("sql", "")}
         hit = regions.static_hit(self.active, ctx)
@@ -627,6 +652,10 @@ def replay_scalar_witness(w: dict) -> Tuple[bool, str]:
             return True, f"{backend} {text!r} -> {r1[1]}, {b2} {t2!r} -> {r2[1]} on {rows}"
         return False, f"{backend} {text!r} and {b2} {t2!r} now agree on the recorded rows"
     st, payload = build(backend, text)
+    if w.get("expect_crash"):
+        if st in ("crash", "refused") and w["expect_crash"] in str(payload):
+            return True, f"{backend} {text!r} raises {str(payload)[:160]}"
+        return False, f"{backend} {text!r} is now {st}"
     if st != "ok":
         return False, f"{backend}: filter {text!r} is now {st}"
     try:
